@@ -102,17 +102,38 @@ func resolveMapRoles(c *Ctx) *mapRoles {
 		ps, rs := sigOf(m)
 		return len(ps) > 0 && len(rs) == 1 && namedOf(rs[0]) == r.node
 	})
-	// release = Map method (node) -> (); next = Map method (node) -> node that contains a loop
-	r.release = c.oneMethod("map.release", r.Map, func(m *ssa.Function) bool {
-		ps, rs := sigOf(m)
-		return len(ps) == 1 && namedOf(ps[0]) == r.node && len(rs) == 0
-	})
+	// iterator type: the concrete type Iterator() returns
+	for _, ret := range ir.Returns(r.iterFn) {
+		if mi, ok := ret.Results[0].(*ssa.MakeInterface); ok {
+			r.iterT = namedOf(mi.X.Type())
+		}
+	}
+	if r.iterT == nil {
+		c.Fatalf("role map.iterator: Iterator() does not return a concrete named type")
+	}
+	c.Role("map.iterator", r.iterT.Obj().Name(), r.iterT.Obj().Pos())
+	r.itPtr = c.oneField("iterator.cursor", r.iterT, func(f *types.Var) bool { return isNodePtr(f.Type()) })
+	r.closeFn = c.RequireFn(c.P.MethodOf(r.iterT, "Close"), "iterator.Close")
+	// release = the Map method taking a node that the iterator's Close calls
+	for _, call := range ir.Calls(r.closeFn) {
+		if cal := ir.StaticCallee(call); cal != nil && cal.Signature.Recv() != nil && namedOf(cal.Signature.Recv().Type()) == r.Map {
+			ps, _ := sigOf(cal)
+			if len(ps) == 1 && namedOf(ps[0]) == r.node {
+				r.release = cal
+			}
+		}
+	}
+	if r.release == nil {
+		c.Fatalf("role map.release: iterator Close() does not hand its cursor to a method of the map")
+	}
+	c.Role("map.release", relName(r.release), r.release.Pos())
+	c.Saw(r.release)
 	r.next = c.oneMethod("map.advance", r.Map, func(m *ssa.Function) bool {
 		ps, rs := sigOf(m)
 		if !(len(ps) == 1 && namedOf(ps[0]) == r.node && len(rs) == 1 && namedOf(rs[0]) == r.node) {
 			return false
 		}
-		return len(callsTo(m, r.unlink)) > 0
+		return hasLoop(m)
 	})
 	if r.refCnt == nil {
 		for _, f := range fieldsWhere(r.node, func(f *types.Var) bool { return types.Identical(f.Type(), types.Typ[types.Int]) }) {
@@ -132,18 +153,6 @@ func resolveMapRoles(c *Ctx) *mapRoles {
 		r.refCnt = cntCands[0]
 	}
 	c.Role("node.refCnt", r.refCnt.Name(), r.refCnt.Pos())
-	// iterator type: the concrete type Iterator() returns
-	for _, ret := range ir.Returns(r.iterFn) {
-		if mi, ok := ret.Results[0].(*ssa.MakeInterface); ok {
-			r.iterT = namedOf(mi.X.Type())
-		}
-	}
-	if r.iterT == nil {
-		c.Fatalf("role map.iterator: Iterator() does not return a concrete named type")
-	}
-	c.Role("map.iterator", r.iterT.Obj().Name(), r.iterT.Obj().Pos())
-	r.itPtr = c.oneField("iterator.cursor", r.iterT, func(f *types.Var) bool { return isNodePtr(f.Type()) })
-	r.closeFn = c.RequireFn(c.P.MethodOf(r.iterT, "Close"), "iterator.Close")
 	return r
 }
 
@@ -203,16 +212,9 @@ func runC10(c *Ctx) {
 			if namedOf(arg.Type()) != r.node {
 				return
 			}
-			guarded := hasFactCmp(call.Block(), func(cm ir.Cmp) bool {
-				if b, isCnt := loadOfField(cm.X, r.refCnt); isCnt && same(b, arg) {
-					if z, isC := ir.ConstInt(cm.Y); isC && z == 0 && (cm.Op == token.EQL || cm.Op == token.LEQ) {
-						return true
-					}
-				}
-				return false
-			})
+			guarded := c.refZeroGuarded(r, fn, call.Block(), arg, 0)
 			if !guarded {
-				c.Decide("C10.R2", fn, "pool.Put(node)", call, false, "the node is recycled on a path where its reference count is not tested to be zero: an iterator may still point to it")
+				c.Decide("C10.R2", fn, "pool.Put(node)", call, false, "the node is recycled on a path where its reference count is not tested to be zero (neither here nor at every call site of this helper): an iterator may still point to it")
 				return
 			}
 			c.NoPath("C10.R2", "pool.Put(node)", call, ir.Query{Fn: fn,
@@ -355,6 +357,7 @@ func runC10(c *Ctx) {
 		}
 	}
 	c.R.Floor("C10.R5", 2)
+	c.payloadAndCursorDiscipline(r, "C10.R6", "C10.R7")
 }
 
 func runC11(c *Ctx) {
@@ -423,5 +426,184 @@ func runC11(c *Ctx) {
 			})
 		}
 	}
-	c.R.Floor("C11.R1", 2)
+	c.R.Floor("C11.R1", 1)
+	c.payloadAndCursorDiscipline(r, "", "C11.R3")
+}
+
+// hasLoop reports whether fn's CFG has a back edge.
+func hasLoop(fn *ssa.Function) bool {
+	for _, b := range fn.Blocks {
+		for _, s := range b.Succs {
+			if s.Dominates(b) {
+				return true
+			}
+		}
+	}
+	return false
+}
+
+// refZeroGuarded reports whether, at block b of fn, the reference count of node is known to be zero (or <=0):
+// by a local guard fact, or - when node is a parameter of a private helper - at every static call site.
+func (c *Ctx) refZeroGuarded(r *mapRoles, fn *ssa.Function, b *ssa.BasicBlock, node ssa.Value, depth int) bool {
+	local := hasFactCmp(b, func(cm ir.Cmp) bool {
+		if base, isCnt := loadOfField(cm.X, r.refCnt); isCnt && same(base, node) {
+			if z, isC := ir.ConstInt(cm.Y); isC && z == 0 && (cm.Op == token.EQL || cm.Op == token.LEQ) {
+				return true
+			}
+		}
+		return false
+	})
+	if local {
+		return true
+	}
+	prm, isParam := ir.Resolve(node).(*ssa.Parameter)
+	if !isParam || depth >= 3 || (fn.Object() != nil && fn.Object().Exported()) {
+		return false
+	}
+	idx := -1
+	for i, p := range fn.Params {
+		if p == prm {
+			idx = i
+		}
+	}
+	sites := 0
+	for _, caller := range c.P.FuncsOf("container/iterable") {
+		for _, call := range callsTo(caller, fn) {
+			sites++
+			if idx < 0 || idx >= len(call.Call.Args) || !c.refZeroGuarded(r, caller, call.Block(), call.Call.Args[idx], depth+1) {
+				return false
+			}
+		}
+	}
+	return sites > 0
+}
+
+// payloadAndCursorDiscipline is C10.R6 / C10.R7 (R7 shared with C11.R3).
+func (c *Ctx) payloadAndCursorDiscipline(r *mapRoles, ruleRead, ruleCursor string) {
+	// live-cursor routines: Map methods (node) -> node
+	live := map[*ssa.Function]bool{}
+	for _, m := range c.P.MethodsOf(r.Map) {
+		ps, rs := sigOf(m)
+		if len(ps) == 1 && namedOf(ps[0]) == r.node && len(rs) == 1 && namedOf(rs[0]) == r.node {
+			live[m] = true
+		}
+	}
+	cursorRoutine := map[*ssa.Function]bool{r.release: true}
+	for m := range live {
+		cursorRoutine[m] = true
+	}
+	payload := fieldsWhere(r.node, func(f *types.Var) bool {
+		_, isTP := f.Type().(*types.TypeParam)
+		return isTP
+	})
+	isPayload := func(f *types.Var) bool {
+		for _, p := range payload {
+			if p == f {
+				return true
+			}
+		}
+		return false
+	}
+	// a node value is "live" if it stems from the index, a live-cursor routine, or the iterator cursor right after
+	// it was assigned from such a routine
+	var liveNode func(fn *ssa.Function, at ssa.Instruction, v ssa.Value, depth int) bool
+	liveNode = func(fn *ssa.Function, at ssa.Instruction, v ssa.Value, depth int) bool {
+		if depth > 4 {
+			return false
+		}
+		v = ir.Resolve(v)
+		switch x := v.(type) {
+		case *ssa.Extract:
+			if lk, ok := x.Tuple.(*ssa.Lookup); ok {
+				_, isIdx := loadOfField(lk.X, r.vals)
+				return isIdx
+			}
+		case *ssa.Lookup:
+			_, isIdx := loadOfField(x.X, r.vals)
+			return isIdx
+		case *ssa.Call:
+			return live[ir.StaticCallee(x)]
+		case *ssa.Phi:
+			for _, e := range x.Edges {
+				if !liveNode(fn, at, e, depth+1) {
+					return false
+				}
+			}
+			return true
+		case *ssa.UnOp:
+			if x.Op != token.MUL {
+				return false
+			}
+			if base, isCur := fieldAddrOf(x.X, r.itPtr); isCur {
+				// nearest store to the same cursor before the load, in the same block
+				var last *ssa.Store
+				for _, in := range x.Block().Instrs {
+					if in == ssa.Instruction(x) {
+						break
+					}
+					if b2, val, ok := storeToField(in, r.itPtr); ok && same(b2, base) {
+						last = in.(*ssa.Store)
+						_ = val
+					}
+				}
+				if last != nil {
+					return liveNode(fn, last, last.Val, depth+1)
+				}
+			}
+		}
+		return false
+	}
+	nReads, nCursor := 0, 0
+	for _, fn := range c.P.FuncsOf("container/iterable") {
+		recv := fn.Signature.Recv()
+		if recv == nil {
+			continue
+		}
+		rt := namedOf(recv.Type())
+		if rt != r.Map && rt != r.iterT {
+			continue
+		}
+		ir.Instrs(fn, func(in ssa.Instruction) {
+			// R6: payload reads
+			if u, ok := in.(*ssa.UnOp); ok && u.Op == token.MUL {
+				if fa, ok := u.X.(*ssa.FieldAddr); ok && isPayload(ir.FieldOf(fa)) && namedOf(fa.X.Type()) == r.node {
+					nReads++
+					c.Decide(ruleRead, fn, "payload read from a live node", in, liveNode(fn, in, fa.X, 0),
+						"an entry's key/value is read from a node that was obtained neither through the index nor through the skip-removed routine: it can be a removed entry")
+				}
+			}
+			// R7: cursor routines receive only cursors
+			if call, ok := in.(*ssa.Call); ok && ruleCursor != "" {
+				cal := ir.StaticCallee(call)
+				if !cursorRoutine[cal] || len(call.Call.Args) < 2 {
+					return
+				}
+				nCursor++
+				arg := ir.Resolve(call.Call.Args[1])
+				okArg := false
+				switch a := arg.(type) {
+				case *ssa.Parameter:
+					okArg = cursorRoutine[fn] // the routines pass their own cursor on
+				case *ssa.Phi:
+					okArg = cursorRoutine[fn]
+				case *ssa.UnOp:
+					if a.Op == token.MUL {
+						_, okArg = fieldAddrOf(a.X, r.itPtr)
+					}
+				case *ssa.Call:
+					okArg = live[ir.StaticCallee(a)]
+				}
+				c.Decide(ruleCursor, fn, "cursor routine applied to an iterator cursor", in, okArg,
+					"a routine that moves/releases a reference is applied to a node on which the caller holds no reference (not an iterator cursor): reference counts get out of balance and removed nodes stay linked or are recycled while in use")
+			}
+		})
+	}
+	if ruleRead != "" {
+		c.R.Floor(ruleRead, 3)
+	}
+	if ruleCursor != "" {
+		c.R.Floor(ruleCursor, 4)
+	}
+	_ = nReads
+	_ = nCursor
 }
